@@ -22,6 +22,33 @@ type Set struct {
 	Extra []Source `json:"extra_texts,omitempty"`
 }
 
+// OlderImports: the older revision imports under every prefix that the module's own text uses for an import - but,
+// where the set has one, another module than that text does (a module renamed or split between revisions keeps
+// its prefixes). Nothing in the older text uses them; what a prefix denotes depends on the text that asks.
+func (s *Set) OlderImports() []Import {
+	m := s.Find(s.Older)
+	if m == nil {
+		return nil
+	}
+	var out []Import
+	seen := map[string]bool{}
+	for _, im := range m.Imports {
+		if seen[im.Prefix] || im.Prefix == m.Prefix {
+			continue
+		}
+		seen[im.Prefix] = true
+		other := im.Module
+		for _, x := range s.Modules {
+			if !x.IsSub && x.Name != m.Name && x.Name != im.Module {
+				other = x.Name
+				break
+			}
+		}
+		out = append(out, Import{Module: other, Prefix: im.Prefix})
+	}
+	return out
+}
+
 // OlderText is the text of the older revision (nil if there is none).
 func (s *Set) OlderText() *Source {
 	m := s.Find(s.Older)
@@ -29,7 +56,11 @@ func (s *Set) OlderText() *Source {
 		return nil
 	}
 	var b strings.Builder
-	fmt.Fprintf(&b, "module %s {\n  namespace %s;\n  prefix %s;\n  revision 2019-05-05;\n", m.Name, Q(m.Namespace), m.Prefix)
+	fmt.Fprintf(&b, "module %s {\n  namespace %s;\n  prefix %s;\n", m.Name, Q(m.Namespace), m.Prefix)
+	for _, im := range s.OlderImports() {
+		fmt.Fprintf(&b, "  import %s { prefix %s; }\n", im.Module, im.Prefix)
+	}
+	b.WriteString("  revision 2019-05-05;\n")
 	seen := map[string]bool{}
 	for _, x := range s.Modules {
 		if x != m && !(x.IsSub && x.BelongsTo == m.Name) {
